@@ -147,7 +147,7 @@ def step1 (st : St) (cmd : String) (args : List String) : St × String :=
   | some s =>
   match cmd, args with
   | "lib1.mark", [] => (st, "ok nonempty nonempty distinct")
-  | "lib1.plantrefs", [v] =>
+  | "lib1.plantrefs", v :: _ =>       -- `lib1.plantrefs <t> nulls`: same rows, other columns NULL (not modelled)
     withT st v fun t =>
     let (R', r) := stepR fops s ⟨st.L, st.refs⟩ (.plantRefs t)
     let st' := { st with L := R'.lib, refs := R'.refs }
